@@ -144,6 +144,12 @@ class Popen(AgentExecutingComponent):
                 task['exception']        = repr(e)
                 task['exception_detail'] = '\n'.join(ru.get_exception_trace())
 
+                # whoever removes the task from `self._tasks` hands it on: if
+                # a cancel request got there first, `cancel_task` does
+                with self._check_lock:
+                    if self._tasks.pop(task['uid'], None) is None:
+                        continue
+
                 # can't rely on the executor base to free the task resources
                 self._prof.prof('unschedule_start', uid=task['uid'])
                 self.publish(rpc.AGENT_UNSCHEDULE_PUBSUB, task)
